@@ -1788,13 +1788,15 @@ impl Sessions {
             }
 
             // Ensure the currently selected id doesn't match any existing exchange
+            // initiated by us (exchanges where we are the responder carry an id
+            // chosen by the peer and live in a separate id space)
             if self
                 .sessions
                 .iter()
                 .flat_map(|sess| sess.exchanges.iter())
                 .filter_map(|exch| exch.as_ref())
                 .all(|exch| {
-                    !matches!(exch.role, Role::Responder(_)) || exch.exch_id != next_exch_id
+                    !matches!(exch.role, Role::Initiator(_)) || exch.exch_id != next_exch_id
                 })
             {
                 break;
